@@ -1080,6 +1080,60 @@ def r6(ctx, r):
         r.expect(len(dec) == 1, dom, None, "DOM decoding: %s" % k, "the %s case does not decode entities exactly once" % k, okdesc="%s: entities decoded once" % k)
 
 
+def r7(ctx, r):
+    """tokenizer tables: which reader produces which token kind with which delimiters; next()'s dispatch"""
+    kinds = {"readProcessingInstruction": "ProcessingInstruction", "readComment": "Comment", "readCData": "CData", "readDoctype": "Doctype", "readEndTag": "EndElement", "readText": "Text"}
+    for fn_, kind in kinds.items():
+        f = xp(ctx, fn_)
+        ks = [last(x["n"]) for e in f.stmts() if assign_parts(e.node) and show(strip_casts(assign_parts(e.node)[0])).endswith(".kind") for x in walk(assign_parts(e.node)[1]) if x.get("k") == "enum"]
+        r.instance()
+        r.expect(ks == [kind], f, None, "token kind of %s" % fn_, "%s reports token kind %s (expected %s)" % (fn_, ks, kind), okdesc="%s → %s" % (fn_, kind))
+    st = xp(ctx, "readStartOrEmptyTag")
+    ks = sorted(last(x["n"]) for e in st.stmts() if assign_parts(e.node) and show(strip_casts(assign_parts(e.node)[0])).endswith(".kind") for x in walk(assign_parts(e.node)[1]) if x.get("k") == "enum")
+    r.instance()
+    r.expect(ks == ["EmptyElement", "StartElement"], st, None, "token kinds of readStartOrEmptyTag", "readStartOrEmptyTag reports kinds %s" % ks, okdesc="readStartOrEmptyTag → StartElement / EmptyElement")
+    # delimiters
+    for fn_, lit in (("readComment", "-->"), ("readCData", "]]>")):
+        f = xp(ctx, fn_)
+        got = [x.get("v") for e in f.stmts() if e.node.get("k") == "mcall" and last(e.node.get("callee", "")) == "readUntil" for x in walk(e.node["args"][0]) if x.get("k") == "str"]
+        r.instance()
+        r.expect(got == [lit], f, None, "terminator of %s" % fn_, "%s scans for %s (expected %r)" % (fn_, got, lit), okdesc="%s ends at %r" % (fn_, lit))
+    pi = xp(ctx, "readProcessingInstruction")
+    got = [x.get("v") for e in pi.stmts() if e.node.get("k") == "mcall" and last(e.node.get("callee", "")) == "find" and is_input(e.node.get("obj")) for x in walk(e.node["args"][0]) if x.get("k") == "str"]
+    adv = [b for b in pi.blocks.values() if b.cond is not None and common.cmp_parts(b.cond) and is_cur(common.cmp_parts(b.cond)[1]) and lin(common.cmp_parts(b.cond)[2]) is not None]
+    r.instance()
+    r.expect(got == ["?>"] and len(adv) == 1 and lin(common.cmp_parts(adv[0].cond)[2])[0] == 2, pi, None, "terminator of readProcessingInstruction", "the processing instruction does not end at / skip past `?>` (%s)" % got, okdesc="PI ends at '?>' (+2 consumed)")
+    # next(): dispatch on the characters after '<'
+    nx = xp(ctx, "next")
+    table = {}
+    for b in nx.blocks.values():
+        cp = common.cmp_parts(b.cond) if b.cond is not None else None
+        if cp and cp[0] == "==" and const_value(cp[2]) is not None and strip_casts(cp[1]).get("k") == "var":
+            tb = _reach_until_ret(nx, b.succs[0])[:14]
+            calls = [last(e.node["callee"]) for e in tb if e.kind == "stmt" and e.node.get("k") == "mcall" and last(e.node.get("callee", "")).startswith("read")]
+            table[chr(const_value(cp[2]))] = calls
+    r.instance()
+    ok = table.get("?", [None])[:1] == ["readProcessingInstruction"] and table.get("/", [None])[:1] == ["readEndTag"] and "<" in table
+    r.expect(ok, nx, None, "markup dispatch", "next() dispatches on the character after '<' as %s" % {k: v[:1] for k, v in table.items()}, okdesc="'?' → PI, '/' → end tag, '!' → declarations, else start tag")
+    ms = [(show(strip_casts(b.cond)), [last(e.node["callee"]) for e in _reach_until_ret(nx, b.succs[0])[:6] if e.kind == "stmt" and e.node.get("k") == "mcall" and last(e.node.get("callee", "")).startswith("read")]) for b in nx.blocks.values()
+          if b.cond is not None and strip_casts(b.cond).get("k") == "mcall" and last(strip_casts(b.cond).get("callee", "")) in ("matchString", "matchWordCaseInsensitive")]
+    want = {'matchString("--")': "readComment", 'matchString("[CDATA[")': "readCData", 'matchWordCaseInsensitive("DOCTYPE")': "readDoctype"}
+    r.instance()
+    r.expect(all(any(c == k and v[:1] == [w] for c, v in ms) for k, w in want.items()), nx, None, "declaration dispatch", "after `<!` next() dispatches %s (expected %s)" % (ms, want), okdesc="'--' → comment, '[CDATA[' → CDATA, DOCTYPE → doctype")
+    # attribute value quotes: the closing quote is the opening one
+    qv = xp(ctx, "readQuotedValue")
+    qd = [v for e in qv.stmts() if e.node.get("k") == "decl" for v in e.node["vars"] if v.get("init") is not None and "peek()" in show(v["init"])]
+    lp = [b for b in qv.blocks.values() if b.cond is not None and common.cmp_parts(b.cond) and common.cmp_parts(b.cond)[0] == "!=" and "peek()" in show(common.cmp_parts(b.cond)[1]) and qd and key_of_(common.cmp_parts(b.cond)[2]) == qd[0]["n"]]
+    r.instance()
+    r.expect(len(qd) == 1 and len(lp) == 1, qv, None, "closing quote", "the attribute value does not run to the same quote character that opened it", okdesc="attribute value ends at the opening quote character")
+
+
+def key_of_(n):
+    n = strip_casts(n)
+    return n["n"] if n is not None and n.get("k") == "var" else None
+
+
+
 def anchors(ctx, r):
     tab = [(xp(ctx, "readStartOrEmptyTag"), ["empty", "name"]), (xp(ctx, "readEndTag"), ["name"]), (xp(ctx, "readAttributes"), ["attrs"]), (xp(ctx, "appendCharRef"), ["code", "c", "v"]),
            (xp(ctx, "encodeUtf8"), ["out"]), (xp(ctx, "decodeEntities"), ["ent"]), (ctx.fb().func("iora::parsers::xml::DomBuilder::build", file_suffix=XF), ["stack"])]
@@ -1098,4 +1152,5 @@ def run(ctx, ck):
     ck.run_rule("C14-R3", "every configured limit is tested on every path that grows the bounded quantity", "A2 dominance + loop re-entry search", lambda r: r3(ctx, r))
     ck.run_rule("C14-R4", "entity table is exactly the five predefined names + numeric references; no I/O, DOCTYPE only skipped", "A10 table extraction + A3 deny list", lambda r: r4(ctx, r))
     ck.run_rule("C14-R5", "numeric character references cannot wrap; digit values and UTF-8 encoder exact", "A8 + exact finite-domain evaluation", lambda r: r5(ctx, r))
+    ck.run_rule("C14-R7", "tokenizer tables: token kind and delimiters per reader, markup dispatch, matching quotes", "A10 table extraction", lambda r: r7(ctx, r))
     ck.run_rule("C14-R6", "SAX and DOM are driven by the one pull token stream and cover every content token kind", "A3 + exhaustiveness", lambda r: r6(ctx, r))
